@@ -544,7 +544,7 @@ func genCase(t *rapid.T) Case {
 	c.Outer = c.At != "use" && rapid.IntRange(0, 3).Draw(t, "outer") == 0
 	if rapid.IntRange(0, 3).Draw(t, "opts") > 0 {
 		c.Opts = &flamego.RenderOptions{
-			Charset:    []string{"", "", "ISO-8859-1", "gbk"}[rapid.IntRange(0, 3).Draw(t, "charset")],
+			Charset:    []string{"", "", "ISO-8859-1", "gbk", "ascii", "shift_jis", "euc-kr", "tis-620", "utf-16", "charset", "hz-gb-2312"}[rapid.IntRange(0, 10).Draw(t, "charset")],
 			JSONIndent: []string{"", "", "  ", "\t"}[rapid.IntRange(0, 3).Draw(t, "jindent")],
 			XMLIndent:  []string{"", "", "  ", "\t"}[rapid.IntRange(0, 3).Draw(t, "xindent")],
 		}
